@@ -746,3 +746,19 @@ Definition ex_drop_prefix : list label :=
 Definition ex_drop_suffix : list label :=
   [LQuit 1 XMgrDropped; LQuit 0 XCancelled; LExitSkip 0; LExitSkip 1; LExitBlock 0; LExitBlock 1;
    LExitClear 1; LExitClear 0].
+
+Lemma cdist_le3 w : cdist w <= 3.
+Proof. destruct w as [| | | |e [|]| | | | |]; cbn; lia. Qed.
+
+(** the two halves together: registered and un-notified now, released after the worker's
+    [wdist] steps and three steps of its own *)
+Lemma waiter_released_run s tr1 s1 tr2 s2 i e :
+  Inv s -> wts s i = AReg e false ->
+  run true tr1 s = Some s1 -> wdist (wc (pss s e)) <= count_l (progress_of e) tr1 ->
+  run true tr2 s1 = Some s2 -> 3 <= count_l (is_caller i) tr2 ->
+  exists r, wts s2 i = ADone r.
+Proof.
+  intros I Hw H1 Hd H2 Hc.
+  pose proof (wake_within_run tr1 s s1 i e I H1 Hw Hd) as Hp.
+  apply (released_within_run tr2 s1 s2 i H2 Hp). pose proof (cdist_le3 (wts s1 i)). lia.
+Qed.
